@@ -22,6 +22,10 @@ theorem hooks_reseed_unconditionally :
     KDVerif.Gen.WrapperTable.transformHookReseeds = true ∧ KDVerif.Gen.WrapperTable.collatorHookReseeds = true := by
   decide
 
+/-- **generated obligation**: no dataset layer creates its own per-sample generator from OS entropy when no seed
+    is configured (such a stream is neither derived from the worker's global seed nor reproducible) -/
+theorem no_entropy_fallback : KDVerif.Gen.WrapperTable.entropyFallbackClasses = [] := by decide
+
 /-- **worker_init_fn re-seeds everything**: for every dataset stack built from the tables (any depth, any
     branching through concat datasets, any transform composition in any layer, any collators), after the
     worker-initialisation chain has run, every reachable generator cell is one of the generators derived from
